@@ -4,7 +4,7 @@ from __future__ import annotations
 import ast
 
 from ..model import AnalysisError
-from ..vgraph import NONE, Closure, walk
+from ..vgraph import NONE, Closure, mapnodes, walk
 
 
 def bind_args(fn: ast.FunctionDef, args, kwargs, skip_first: bool = True) -> dict:
@@ -211,7 +211,8 @@ def elementwise(c, dicts=(), level=None):
             domains.append(it)
             return [("key", it)]
         for nm in ("keys", "values", "items"):
-            if meth_of(it, nm) and it[1][1] in dicts:
+            # (.items() always yields pairs, so it takes two slots whatever the receiver: the value graph numbers bound variables so)
+            if meth_of(it, nm) and (it[1][1] in dicts or nm == "items"):
                 D = it[1][1]
                 domains.append(D)
                 k = ("key", D)
@@ -237,6 +238,26 @@ def elementwise(c, dicts=(), level=None):
         return n
 
     return mapnodes(c[2], f), domains
+
+
+def element_at_pos(c, dicts=()):
+    """elementwise() with nested list comprehensions resolved: `[f(x) for x in xs][@pos]` is f(xs[@pos]) (single unfiltered generator),
+    so a list that is built first and zipped afterwards reads like the fused comprehension. Returns (element, domains) or None."""
+    ew = elementwise(c, dicts)
+    if ew is None:
+        return None
+    elt, domains = ew
+    domains = list(domains)
+
+    def f(n):
+        if n and n[0] == "sub" and n[2] == POS and isinstance(n[1], tuple) and n[1] and n[1][0] == "comp" and n[1][1] == "ListComp":
+            inner = element_at_pos(n[1], dicts)
+            if inner is not None:
+                domains.extend(inner[1])
+                return inner[0]
+        return n
+
+    return mapnodes(elt, f), [d_ for d_ in domains if not (isinstance(d_, tuple) and d_ and d_[0] == "comp")] + [d_ for d_ in domains if isinstance(d_, tuple) and d_ and d_[0] == "comp"]
 
 
 _IN_PROGRESS: set = set()
@@ -332,6 +353,16 @@ def _merge_children(test, a, b, depth):
     return tuple(out)
 
 
+def _broadcast_item(n):
+    """broadcast_arrays(a, b, ...)[i] is a_i broadcast: as far as *which argument it carries* goes, it is the i-th argument"""
+    if n and n[0] == "item" and isinstance(n[1], tuple) and n[1] and n[1][0] == "call" and n[1][1] == ("global", "jax.numpy.broadcast_arrays") \
+            and not n[1][3] and isinstance(n[2], int) and n[2] < len(n[1][2]) and not any(isinstance(a, tuple) and a and a[0] == "star" for a in n[1][2]):
+        return n[1][2][n[2]]
+    if n and n[0] == "call" and n[1] == ("global", "jax.numpy.broadcast_to") and len(n[2]) == 2 and not n[3]:
+        return n[2][0]  # broadcasting replicates its first argument; the shape is not data
+    return n
+
+
 def ctor_wiring(s, rule, cls, necessary_for="", skip=()):
     """Every constructor parameter that has a like-named attribute reaches that attribute, and only it does (no other constructor
     parameter is mixed in). `x if x is not None else <default>` is accepted. Returns the number of attributes examined."""
@@ -364,6 +395,7 @@ def ctor_wiring(s, rule, cls, necessary_for="", skip=()):
             v = p.self_attrs.get(name)
             if v is None:
                 continue
+            v = mapnodes(v, _broadcast_item)
             ps = {x[1] for x in walk(v) if isinstance(x, tuple) and x and x[0] == "param"} - {"self"}
             none_on = any(isinstance(t, tuple) and t[0] == "cmp" and t[3] == NONE and t[2] == ("param", name) and ((t[1] == "IsNot" and not val) or (t[1] == "Is" and val))
                           for t, val in p.conds)
